@@ -7,6 +7,7 @@ STAGES = {
             S("conc16", "conc", "c09", env={"RAYON_NUM_THREADS": 16, "VERIF_SCALE": 0.5})],
     "C10": [S("rel", "rel", "c10"), S("conc", "conc", "c10", env={"RAYON_NUM_THREADS": 6, "VERIF_SCALE": 0.5})],
     "C11": [S("rel", "rel", "c11")],
+    "C12": [S("rel", "rel", "c12")],
     "C13": [S("rel", "rel", "c13")],
     "C16": [S("rel", "rel", "c16")],
     "C18": [S("rel", "rel", "c18")],
